@@ -6,6 +6,7 @@ CONSTANTS
   SampleMod = 1
   SampleRes = 0
   Ex = 3
+  YNorm = TRUE
   Kinds = {"mat", "pert", "resp"}
 INVARIANT Theorems
 CONSTRAINT Emit
